@@ -15,51 +15,67 @@
 (***************************************************************************)
 EXTENDS Integers, TLC
 
-CONSTANT ItemFirst
+CONSTANTS ItemFirst,
+          LocAfterValue   \* TRUE = the code: itemLoc.write publishes the location after header, key AND value are on the file
 
 VARIABLES loc,      \* 0: not persisted, 1: persisted (location known)
           item,     \* "none" | "key" (cached without value) | "full"
           mpc,      \* mutator: "idle" | "copy1" | "copied" | "size1" | "sized"
           r1,       \* the field the mutator read first
           copy,     \* the copied item location <<loc, item>>
-          size      \* what NumBytes computed: "item" | "loc" | "zero"
+          size,     \* what NumBytes computed: "item" | "loc" | "zero"
+          file,     \* what of the item record is on the file: "none" | "hdr" (header + key) | "full"
+          fpc,      \* flusher inside itemLoc.write: "idle" | "hdr" | "val" | "loc" | "done"
+          garbage   \* some load read bytes that were not written yet
 
-vars == <<loc, item, mpc, r1, copy, size>>
+vars == <<loc, item, mpc, r1, copy, size, file, fpc, garbage>>
 
 Init == /\ loc = 0 /\ item = "full"          \* a freshly set, unpersisted item
         /\ mpc = "idle" /\ r1 = <<>> /\ copy = <<>> /\ size = "none"
+        /\ file = "none" /\ fpc = "idle" /\ garbage = FALSE
 
-\* flusher: itemLoc.write (only unpersisted items that are in memory), then setLoc
-Persist == /\ loc = 0 /\ item # "none" /\ loc' = 1
-           /\ UNCHANGED <<item, mpc, r1, copy, size>>
+\* flusher: itemLoc.write (only unpersisted items that are in memory) is two
+\* WriteAt calls - header + key, then the value - and setLoc; no lock is held
+\* across them, other goroutines run in between
+FHdr == /\ fpc = "idle" /\ loc = 0 /\ item # "none" /\ file' = "hdr" /\ fpc' = "hdr"
+        /\ UNCHANGED <<loc, item, mpc, r1, copy, size, garbage>>
+FVal == /\ fpc = (IF LocAfterValue THEN "hdr" ELSE "loc") /\ file' = "full"
+        /\ fpc' = (IF LocAfterValue THEN "val" ELSE "done")
+        /\ UNCHANGED <<loc, item, mpc, r1, copy, size, garbage>>
+FLoc == /\ fpc = (IF LocAfterValue THEN "val" ELSE "hdr") /\ loc' = 1
+        /\ fpc' = (IF LocAfterValue THEN "done" ELSE "loc")
+        /\ UNCHANGED <<item, mpc, r1, copy, size, file, garbage>>
+Persist == FHdr \/ FVal \/ FLoc
 
 \* a visit (or EvictSomeItems): node.Evict drops a persisted item
 Evict == /\ loc = 1 /\ item # "none" /\ item' = "none"
-         /\ UNCHANGED <<loc, mpc, r1, copy, size>>
+         /\ UNCHANGED <<loc, mpc, r1, copy, size, file, fpc, garbage>>
 
 \* itemLoc.read(withValue = false): loads header + key when nothing is cached
 LoadKeyOnly == /\ item = "none" /\ loc = 1 /\ item' = "key"
-               /\ UNCHANGED <<loc, mpc, r1, copy, size>>
+               /\ garbage' = (garbage \/ file = "none")
+               /\ UNCHANGED <<loc, mpc, r1, copy, size, file, fpc>>
 \* itemLoc.read(withValue = true): loads the value when it is missing
 LoadWithValue == /\ item \in {"none", "key"} /\ loc = 1 /\ item' = "full"
-                 /\ UNCHANGED <<loc, mpc, r1, copy, size>>
+                 /\ garbage' = (garbage \/ file # "full")
+                 /\ UNCHANGED <<loc, mpc, r1, copy, size, file, fpc>>
 
 \* mutator: itemLoc.Copy(src) = two field reads
 Copy1 == /\ mpc = "idle" /\ copy = <<>> /\ mpc' = "copy1"
          /\ r1' = IF ItemFirst THEN <<item>> ELSE <<loc>>
-         /\ UNCHANGED <<loc, item, copy, size>>
+         /\ UNCHANGED <<loc, item, copy, size, file, fpc, garbage>>
 Copy2 == /\ mpc = "copy1" /\ mpc' = "copied"
          /\ copy' = IF ItemFirst THEN <<loc, r1[1]>> ELSE <<r1[1], item>>
-         /\ UNCHANGED <<loc, item, r1, size>>
+         /\ UNCHANGED <<loc, item, r1, size, file, fpc, garbage>>
 \* mutator: itemLoc.NumBytes = two field reads
 Size1 == /\ mpc = "copied" /\ mpc' = "size1"
          /\ r1' = IF ItemFirst THEN <<item>> ELSE <<loc>>
-         /\ UNCHANGED <<loc, item, copy, size>>
+         /\ UNCHANGED <<loc, item, copy, size, file, fpc, garbage>>
 Size2 == /\ mpc = "size1" /\ mpc' = "sized"
          /\ LET l == IF ItemFirst THEN loc ELSE r1[1]
                 i == IF ItemFirst THEN r1[1] ELSE item
             IN size' = IF l = 1 THEN "loc" ELSE IF i # "none" THEN "item" ELSE "zero"
-         /\ UNCHANGED <<loc, item, r1, copy>>
+         /\ UNCHANGED <<loc, item, r1, copy, file, fpc, garbage>>
 
 Next == Persist \/ Evict \/ LoadKeyOnly \/ LoadWithValue \/ Copy1 \/ Copy2 \/ Size1 \/ Size2
 Spec == Init /\ [][Next]_vars
@@ -70,4 +86,7 @@ CopyKeepsItem == copy # <<>> => (copy[1] = 1 \/ copy[2] # "none")
 SizeIsReal == size # "zero"
 \* an item is never lost: it is cached or persisted
 NeverLost == loc = 1 \/ item # "none"
+\* whatever is loaded from the file was completely written before (a reader
+\* that evicts the item and loads it again must find header, key and value)
+LoadsSeeWrittenBytes == ~garbage
 =============================================================================
